@@ -1,5 +1,5 @@
 CONSTANTS
-  Alpha = {97, 32, 10, 233, 36947}
+  Alpha = {97, 32, 10, 13, 233, 36947}
   MaxLen = 4
 INIT Init
 NEXT Next
